@@ -25,7 +25,7 @@ TECHNIQUE = ("Lean 4: invariant proof over countNode histories (any isNodeAfter 
              "to the XSLT 1.0 section 7.7 specification, round-trip proofs for the formatters over tables regenerated from the "
              "source; two translators (tables, code-shape facts and flags); lock-step correspondence of generated stylesheets "
              "numbering every node (attributes included) in several histories, next to the defining count() expression")
-LEVEL_TEXT = ("Machine-checked (18 theorems, axioms propext/Classical.choice/Quot.sound): (a) for every history of "
+LEVEL_TEXT = ("Machine-checked (20 theorems, axioms propext/Classical.choice/Quot.sound): (a) for every history of "
               "CountersTable::countNode calls and every isNodeAfter oracle the cached answer equals the from-scratch "
               "getPreviousNode chain length; (b) for every well-formed document, every instruction (level single/multiple/any, "
               "explicit or default count, with or without from), every history, the transcribed navigation + cache prints the "
@@ -33,13 +33,13 @@ LEVEL_TEXT = ("Machine-checked (18 theorems, axioms propext/Classical.choice/Quo
               "while that guard is in the source; (c) int2alphaCount (all n>=1 inside the 100-slot buffer), toRoman (1..3999 "
               "complete), decimal with padding and with grouping (buffer accounting of applyGrouping), and formatNumberList for "
               "every format string and every list whose numbers fit their token types, with and without grouping, decode back. "
-              "Tied to the working tree by translators (roman/alphabetic/Greek tables, limits, code-shape facts and four behaviour "
-              "flags the model is parametrised by) and by running generated stylesheets through the real library and the compiled "
+              "Tied to the working tree by translators (roman/alphabetic/Greek tables, limits, code-shape facts, four behaviour "
+              "flags the model is parametrised by, the admission condition of the run-time pattern cache) and by running generated stylesheets through the real library and the compiled "
               "Lean model: every node of generated documents (elements in three namespace situations, text, comments, PIs, "
               "attributes) numbered in document, reverse, shuffled, sorted and repeating orders, each result also compared with "
               "the Lean specification, with the count() expression printed in the same run and with the section 7.7.1 layout; value= "
               "integers, non-integral / negative / special / >64-bit values, grouping attribute edge cases, Greek alphabetic.")
-LEVEL_NOTE = ("Trusted: Lean kernel; the three standard axioms; translate/c17_tables.py and translate/c17_navshape.py; the hand "
+LEVEL_NOTE = ("Trusted: Lean kernel; the three standard axioms; translate/c17_tables.py, translate/c17_navshape.py and translate/c17_patterncache.py; the hand "
               "transcription of ElemNumber.cpp / CountersTable.cpp / XalanNumberFormat.cpp (validated by the correspondence runs, "
               "bounded by generator coverage); Doc.WF is evaluated per generated document, not proved for Doc.ofParents in general. "
               "Abstract: XPath pattern matching (a predicate, evaluated by the generator for a closed pattern family and independently "
@@ -60,6 +60,8 @@ THEOREMS = [
     "XalanModel.Props.C17.number_spec_full",
     "XalanModel.Props.C17.number_spec_single_multiple",
     "XalanModel.Props.C17.number_spec_any_zero_counterexample",
+    "XalanModel.Props.C17.pattern_cache_never_serves_prefixed",
+    "XalanModel.Props.C17.default_count_pattern_not_cached",
     "XalanModel.Props.C17.alpha_roundtrip",
     "XalanModel.Props.C17.alpha_no_overflow",
     "XalanModel.Props.C17.roman_roundtrip",
@@ -236,6 +238,15 @@ def corpus():
     cs.append(Case(t2, [(I("any", G.PAT_ROOT, G.pat_name("h")), [[2, 1]])], "corpus:s6-9b"))
     cs.append(Case(t2, [(I("any", None, G.pat_name("h")), [[0]])], "corpus:s6-9c"))     # default count at the root
     cs.append(Case(t2, [(I("any", G.PAT_ROOT), [[0, 1, 2, 3]]), (I("any", G.pat_root_or("x")), [[3, 0, 1, 2, 3]])], "corpus:root"))
+    # the same prefix (one letter, and longer) bound to different namespaces in different subtrees, the default namespace
+    # re-bound: the default count pattern is compiled per node (run-time pattern cache keyed on the pattern string)
+    t4 = G.tree_from_spec([["r", ["{p}x"], ["{p#2}x"], ["{p}x"], ["{pre}x"], ["{pre#2}x", ["{p#2}x"], ["{pre#2}x"]], ["{d}x", ["{d#2}x"], ["{d}x"]],
+                           ["{p#2}x"], ["x"]]])
+    n4 = len(G.preorder(t4))
+    for lv in ("any", "single", "multiple"):
+        cs.append(Case(t4, [(I(lv), [list(range(n4)), list(range(n4))[::-1]]),
+                            (I(lv, G.pat_name("p:x")), [list(range(n4))]),
+                            (I(lv, G.PAT_STAR, G.pat_name("pre:x")), [list(range(n4))])], "corpus:rebound-prefix-" + lv))
     # default count pattern on a processing instruction
     t3 = G.tree_from_spec([["r", "?p", ["x"], "?p", "?q"]])
     cs.append(Case(t3, [(I("single"), [[2]]), (I("any"), [[4, 2]])], "corpus:pi-default"))
@@ -934,6 +945,7 @@ def run(ctx):
     ctx.build("hooks")
     ctx.translate("c17_tables")
     ctx.translate("c17_navshape")
+    ctx.translate("c17_patterncache")
     ctx.lean("XalanModel.Props.C17", THEOREMS, extra_targets=["xm_c17"])
     # the driver is built on its own (it depends on the model and the generated tables only, not on the proofs): a proof
     # that no longer builds must not leave a stale xm_c17 in use, and a driver that does not build is an obligation
@@ -1112,7 +1124,7 @@ def rebuild_instr(ii):
                  "processing-instruction()": G.PAT_PI, "/": G.PAT_ROOT, "*[@k]": G.pat_star_attr()}
         if txt in fixed:
             return fixed[txt]
-        W = r"((?:p:)?\w+)"
+        W = r"((?:(?:p|pre):)?\w+)"
         m = re.fullmatch(r"(\w+)\|/", txt)
         if m:
             return G.pat_root_or(m.group(1))
